@@ -253,7 +253,7 @@ func (r *rewriter) run() {
 		id := r.funcID(fd)
 		if args, ok := r.d.Observes[id]; ok {
 			r.observeUsed[id] = true
-			r.prependObserve(fd.Body, args)
+			r.prependObserve(fd.Body, r.bindPositional(fd, args))
 		}
 		if key, ok := r.d.Enters[id]; ok {
 			r.enterUsed[id] = true
@@ -329,6 +329,47 @@ func usesImport(f *ast.File, p *packages.Package, path string) bool {
 		return true
 	})
 	return used
+}
+
+// positional placeholders in observe directives: $0 is the receiver, $1.. the parameters in order
+// (robust against renamed parameters); blank or unnamed ones get a generated name.
+func (r *rewriter) bindPositional(fd *ast.FuncDecl, args string) string {
+	if !strings.Contains(args, "$") {
+		return args
+	}
+	var names []string
+	gen := 0
+	take := func(fl *ast.FieldList) {
+		if fl == nil {
+			return
+		}
+		for _, f := range fl.List {
+			if len(f.Names) == 0 {
+				gen++
+				id := ast.NewIdent(fmt.Sprintf("zzp%d", gen))
+				f.Names = []*ast.Ident{id}
+				names = append(names, id.Name)
+				continue
+			}
+			for _, n := range f.Names {
+				if n.Name == "_" {
+					gen++
+					n.Name = fmt.Sprintf("zzp%d", gen)
+				}
+				names = append(names, n.Name)
+			}
+		}
+	}
+	if fd.Recv != nil {
+		take(fd.Recv)
+	} else {
+		names = append(names, "nil")
+	}
+	take(fd.Type.Params)
+	for i := len(names) - 1; i >= 0; i-- {
+		args = strings.ReplaceAll(args, "$"+strconv.Itoa(i), names[i])
+	}
+	return args
 }
 
 func (r *rewriter) prependObserve(body *ast.BlockStmt, args string) {
@@ -545,6 +586,9 @@ func (r *rewriter) rewriteSelect(sel *ast.SelectStmt) ast.Stmt {
 	if def != nil {
 		disp.Body.List = append(disp.Body.List, &ast.CaseClause{List: []ast.Expr{lit(len(comm))}, Body: def.Body})
 	}
+	// default: unreachable; it keeps a select that was a terminating statement (every clause returns)
+	// terminating after the rewrite, so that a function may still end with it
+	disp.Body.List = append(disp.Body.List, &ast.CaseClause{Body: []ast.Stmt{&ast.ExprStmt{X: &ast.CallExpr{Fun: ast.NewIdent("panic"), Args: []ast.Expr{strLit("zzsimrt: select dispatch")}}}}})
 	blk.List = append(blk.List, disp)
 	return blk
 }
